@@ -251,3 +251,13 @@ Proof.
   unfold canonical. rewrite in_flat_map. intros [dt [_ H]]. unfold of_day in H.
   repeat (apply in_app_or in H; destruct H as [H|H]); apply sel_in in H; tauto.
 Qed.
+
+(* [dates] is the strictly ascending list of the dates that occur, and the only one *)
+Lemma dates_spec ds :
+  StronglySorted Z.lt (dates ds) /\ (forall x, In x (dates ds) <-> In x (map ddate ds)) /\
+  (forall l, StronglySorted Z.lt l -> (forall x, In x l <-> In x (map ddate ds)) -> l = dates ds).
+Proof.
+  split; [apply dates_sorted|]. split; [apply dates_in|].
+  intros l Hs Hl. apply sorted_unique; [exact Hs|apply dates_sorted|].
+  intros x. rewrite Hl, dates_in. reflexivity.
+Qed.
